@@ -36,6 +36,9 @@ CLAIMED = {
  "C10": ("proptest-generated badly scaled raw data; entrywise oracle on solver.data after construction",
          "Exploration: 120k (quick) / 3M (thorough) raw data sets (magnitudes up to 1e+-15, zero rows/columns, empty/missing-diagonal P, all cones, capped b) x equilibration settings; internal data must equal c*D*P*D, E*A*D, c*D*q, E*min(b,B) entrywise, factors bounded, reciprocals exact, zero rows/columns unscaled, E constant inside non-scalar cones, and be bit-identical when equilibration is off.",
          "Trusted: the entrywise formulas in harness/src/props/c10.rs with relative slack 64(iters+2)eps; settings satisfy min<=1<=max.", "DESIGN.md §4 C10"),
+ "C11": ("proptest-generated (P, A, cone list, scaling point); index-level oracle on the assembled KKT matrix in both triangles and a dense Schur-complement / inertia oracle on a live KKT solver",
+         "Exploration: 25k (quick) / 1M (thorough) cases over P patterns with missing/empty diagonals, arbitrary A patterns, cone lists incl. SOC on both sides of the sparse-expansion threshold, genpow and PSD; static: canonical CSC in the requested triangle, every P/A entry at its recorded position with its value, complete diagonal, Hs and expansion layouts, disjoint maps covering nnz(K), sign pattern; live (DirectLDLKKTSolver after update_scaling+update): blocks intact, no regularisation left, Schur complement of the auxiliary block equals -H from mul_Hs, eigen-based inertia equals the recorded signs.",
+         "Trusted: harness/src/props/c11.rs layout specification; matrices are read through the KktSnapshot hook; the live solver always assembles the upper triangle here (the lower triangle is exercised statically).", "DESIGN.md §4 C11"),
  "C12": ("exhaustive small-scope enumeration (patterns x orderings, all invalid permutation vectors n<=4) + proptest-generated matrices and update/refactor histories against a dense LDL' backward-error oracle",
          "Exploration: every triu pattern for n<=4 (5 in thorough) under every ordering, every non-permutation vector, and >200k generated matrices/histories are factored; each Ok result must satisfy the no-pivot backward-error bound, the stepwise pivot/regularisation rule, exact symbolic fill, inertia count, solve residual and refactor==fresh bitwise; each reject must be the documented error.",
          "Trusted: dense reference recurrences in harness/src/props/c12.rs; the standard gamma_n|L||D||L'| bound with constant 10(n+2); generic matrices with factor growth >1e12 are discarded (counted), strictly diagonally dominant ones never are.",
